@@ -9,7 +9,104 @@ use crate::hist::{self, Profile};
 use crate::hist_enc::{self, EProfile};
 use std::time::Instant;
 
-pub const RULE: &str = "case = decoder / encoder history run WITH replacement; oracle = the documented manual procedure implemented by the harness on a twin converter using only the *_without_replacement methods: decoders - for every call of the history the twin is driven over the same source slice into a buffer of the same size, appending U+FFFD itself after each Malformed, and (result, read, written), the written units and had_errors ('this call substituted at least one U+FFFD') must be identical call by call, as must the concatenated output; encoders - the manual run appends '&#' decimal ';' itself, concatenated bytes must be identical and had_unmappables of a call must equal 'an unmappable character lies in the input range this call consumed'. Non-trivial = history with at least one malformed sequence / unmappable character; distinct = distinct history.";
+pub const RULE: &str = "case = decoder / encoder history run WITH replacement; oracle = the documented manual procedure implemented by the harness on a twin converter using only the *_without_replacement methods: decoders - for every call of the history the twin is driven over the same source slice into a buffer of the same size, appending U+FFFD itself after each Malformed, and (result, read, written), the written units and had_errors ('this call substituted at least one U+FFFD') must be identical call by call, as must the concatenated output; encoders - the manual run appends '&#' decimal ';' itself, concatenated bytes must be identical and had_unmappables of a call must equal 'an unmappable character lies in the input range this call consumed'. The one-shot with-replacement methods (Encoding::decode_without_bom_handling, Encoding::encode) are compared with the same manual procedure on error-heavy inputs that force their buffer-regrowth path. Non-trivial = history / input with at least one malformed sequence / unmappable character; distinct = distinct history.";
+
+/// The one-shot with-replacement methods against the manual procedure run on the streaming
+/// without-replacement converter (whole input, one call, ample buffer).
+fn one_shot_family(ctx: &Ctx) -> fw::Stats {
+    use crate::drive_dec::{DecDriver, DecHistory};
+    use crate::drive_enc::{EncDriver, EncHistory};
+    use proptest::prelude::*;
+    use serde_json::json;
+    let all = encs::all();
+    fw::par_run(ctx, all.len(), |part, st| {
+        let enc = all[part];
+        let algo = crate::model_dec::algo_for(enc);
+        // error-heavy heads force the regrowth path of the one-shot decoders
+        let strat = (crate::gen::stream(algo, ctx.tier.pick(10, 30)), 0usize..40, 0usize..120, any::<u8>()).prop_map(|(body, errs, clean, eb)| {
+            let mut v = Vec::new();
+            let e = [0xFFu8, 0x80, 0xFE, 0x81][(eb & 3) as usize];
+            for _ in 0..errs {
+                v.push(e);
+            }
+            v.extend_from_slice(&body);
+            for i in 0..clean {
+                v.push(b'a' + (i % 26) as u8);
+            }
+            v
+        });
+        let drv = std::cell::RefCell::new(DecDriver::new());
+        fw::run_random(ctx, 3100 + part as u64, ctx.n(2_500, 60_000), &strat, st, |bytes, st| {
+            st.class("one-shot-decode-vs-manual-procedure");
+            let h = DecHistory::simple(enc, BomMode::None, Sink::Utf8, false, bytes);
+            let out = drv.borrow_mut().run(&h);
+            if !out.completed {
+                return vec![];
+            }
+            if !out.errors.is_empty() {
+                st.nontrivial_hash(fw::mix(fw::fnv(bytes), 7000 + part as u64));
+            }
+            let r = fw::catch(|| {
+                let (c, had) = enc.decode_without_bom_handling(bytes);
+                (c.into_owned(), had)
+            });
+            let bad = match r {
+                Err(p) => Some(format!("decode_without_bom_handling panicked: {}", p)),
+                Ok((text, had)) => {
+                    if text.as_bytes() != &out.out8[..] {
+                        Some(format!("decode_without_bom_handling text {} differs from the manual procedure {}", fw::hex(text.as_bytes()), fw::hex(&out.out8)))
+                    } else if had != !out.errors.is_empty() {
+                        Some(format!("decode_without_bom_handling had_errors = {} but the manual procedure substituted {} U+FFFD", had, out.errors.len()))
+                    } else {
+                        None
+                    }
+                }
+            };
+            match bad {
+                None => vec![],
+                Some(m) => vec![fw::Violation { msg: format!("{} input {}: {}", enc.name(), fw::hex(bytes), m), sig: "C09:one-shot-decode".into(), case: json!({"kind": "c09_one_shot_decode", "encoding": encs::const_name(enc), "input_hex": fw::hex(bytes)}) }],
+            }
+        });
+        if !st.violations.is_empty() {
+            return;
+        }
+        let ealgo = crate::model_enc::enc_algo_for(enc);
+        let strat = proptest::collection::vec((any::<u8>(), any::<u32>()), 0..ctx.tier.pick(60usize, 300usize)).prop_map(move |chars| chars.iter().map(|(k, x)| crate::hist_enc::text_char(ealgo, false, if k % 3 == 0 { 7 } else { *k }, *x)).collect::<Vec<u32>>());
+        let edrv = std::cell::RefCell::new(EncDriver::new());
+        fw::run_random(ctx, 3200 + part as u64, ctx.n(2_500, 60_000), &strat, st, |text, st| {
+            st.class("one-shot-encode-vs-manual-procedure");
+            let h = EncHistory::simple(enc, Src::Utf8, false, text);
+            let out = edrv.borrow_mut().run(&h);
+            if !out.completed {
+                return vec![];
+            }
+            if !out.unmappables.is_empty() {
+                st.nontrivial_hash(fw::mix(h.hash(), 9000 + part as u64));
+            }
+            let s: String = h.text.iter().map(|c| char::from_u32(*c).unwrap_or('\u{FFFD}')).collect();
+            let r = fw::catch(|| {
+                let (c, _, had) = enc.encode(&s);
+                (c.into_owned(), had)
+            });
+            let bad = match r {
+                Err(p) => Some(format!("Encoding::encode panicked: {}", p)),
+                Ok((bytes, had)) => {
+                    if bytes != out.out {
+                        Some(format!("Encoding::encode bytes {} differ from the manual procedure {}", fw::hex(&bytes), fw::hex(&out.out)))
+                    } else if had != !out.unmappables.is_empty() {
+                        Some(format!("Encoding::encode had_unmappables = {} but the manual procedure wrote {} NCR(s)", had, out.unmappables.len()))
+                    } else {
+                        None
+                    }
+                }
+            };
+            match bad {
+                None => vec![],
+                Some(m) => vec![fw::Violation { msg: format!("{} text [{}]: {}", enc.name(), fw::hex32(&h.text), m), sig: "C09:one-shot-encode".into(), case: json!({"kind": "c09_one_shot_encode", "encoding": encs::const_name(enc), "text_code_points_hex": fw::hex32(&h.text)}) }],
+            }
+        });
+    })
+}
 
 pub fn run(ctx: &Ctx) -> i32 {
     let t0 = Instant::now();
@@ -46,10 +143,34 @@ pub fn run(ctx: &Ctx) -> i32 {
         };
         st.merge(ench::run_enc_check(ctx, &ec));
     }
+    if !fw::should_stop() {
+        st.merge(one_shot_family(ctx));
+    }
     fw::finish(ctx, st, RULE, &["the without-replacement methods are tied to the Standard by C01/C03; C09 only relates the two modes", "per-call comparison is exact because the twin is given identical buffers"], t0.elapsed().as_secs_f64()).exit
 }
 
 pub fn replay(case: &serde_json::Value) -> Option<Vec<fw::Violation>> {
+    let kind = case.get("kind").and_then(|k| k.as_str()).unwrap_or("");
+    if kind.starts_with("c09_one_shot") {
+        // cheap and deterministic: re-run through the C11 oracle, which subsumes this comparison
+        let enc = encs::by_const(case.get("encoding")?.as_str()?)?;
+        if kind == "c09_one_shot_decode" {
+            let b = fw::unhex(case.get("input_hex")?.as_str()?);
+            let (c, had) = enc.decode_without_bom_handling(&b);
+            let h = crate::drive_dec::DecHistory::simple(enc, BomMode::None, Sink::Utf8, false, &b);
+            let out = crate::drive_dec::DecDriver::new().run(&h);
+            let ok = c.as_bytes() == &out.out8[..] && had == !out.errors.is_empty();
+            return Some(if ok { vec![] } else { vec![fw::Violation { msg: "one-shot decode differs from the manual procedure".into(), sig: "C09:one-shot-decode".into(), case: case.clone() }] });
+        } else {
+            let t = fw::unhex32(case.get("text_code_points_hex")?.as_str()?);
+            let h = crate::drive_enc::EncHistory::simple(enc, Src::Utf8, false, &t);
+            let out = crate::drive_enc::EncDriver::new().run(&h);
+            let s: String = h.text.iter().map(|c| char::from_u32(*c).unwrap_or('\u{FFFD}')).collect();
+            let (c, _, had) = enc.encode(&s);
+            let ok = c.as_ref() == &out.out[..] && had == !out.unmappables.is_empty();
+            return Some(if ok { vec![] } else { vec![fw::Violation { msg: "one-shot encode differs from the manual procedure".into(), sig: "C09:one-shot-encode".into(), case: case.clone() }] });
+        }
+    }
     if case.get("kind").and_then(|k| k.as_str()) == Some("enc_history") {
         ench::replay_with(case, &ench::verdict_c09)
     } else {
